@@ -25,6 +25,9 @@ type kase struct {
 	Heavy   bool   `json:"full_state_oracle,omitempty"`
 	TOps    []tOp  `json:"trie_ops,omitempty"`
 	SOps    []sOp  `json:"statedb_ops,omitempty"`
+	// merge-oracle counterexamples: a second history ending in the same content
+	OtherTOps []tOp `json:"other_trie_ops,omitempty"`
+	OtherSOps []sOp `json:"other_statedb_ops,omitempty"`
 }
 
 type partStats struct {
@@ -116,6 +119,10 @@ func (c *ctx) exploreTrie(d *trieDriver, depth int, refCache bool) partStats {
 			if prev, ok := rootOf[r.ckey]; ok {
 				if prev != r.root {
 					k := mk()
+					k.OtherTOps = rootHist[r.ckey]
+					if k.OtherTOps == nil {
+						k.OtherTOps = []tOp{}
+					}
 					lk := "none"
 					if len(k.TOps) > 0 {
 						lk = k.TOps[len(k.TOps)-1].Op
@@ -239,6 +246,7 @@ func (c *ctx) exploreSDB(start string, prefix []sOp, depth int, sh *sdbShared) p
 		if r.hasRoot {
 			if prev, ok := sh.rootOf[r.ckey]; ok {
 				if prev != r.root {
+					k.OtherSOps = sh.rootHist[r.ckey]
 					c.run.Report(map[string]string{"part": "statedb", "kind": "merge-root-differs", "op": ops[len(ops)-1].Op, "input": r.input}, k,
 						fmt.Sprintf("[statedb] histories %q and %q end in the same content but have roots %x and %x", sHistString(sh.rootHist[r.ckey]), sHistString(ops), prev[:6], r.root[:6]))
 				}
@@ -359,11 +367,24 @@ func main() {
 		}
 		switch k.Part {
 		case "trie", "securetrie":
-			r := newTrieDriver(k.Part, false, true).run(k.TOps, k.Heavy, nil)
+			d := newTrieDriver(k.Part, false, true)
+			r := d.run(k.TOps, k.Heavy, nil)
 			c.report(k, r.viols)
+			if k.OtherTOps != nil {
+				if o := d.run(k.OtherTOps, false, nil); o.ckey == r.ckey && o.root != r.root {
+					run.Report(map[string]string{"part": k.Part, "kind": "merge-root-differs", "op": "replay"}, k,
+						fmt.Sprintf("[%s] histories %q and %q end in the same content but have roots %x and %x", k.Part, histString(k.OtherTOps), histString(k.TOps), o.root[:6], r.root[:6]))
+				}
+			}
 		case "statedb":
 			r := runSDB(k.SOps)
 			c.report(k, r.viols)
+			if k.OtherSOps != nil {
+				if o := runSDB(k.OtherSOps); o.hasRoot && r.hasRoot && o.ckey == r.ckey && o.root != r.root {
+					run.Report(map[string]string{"part": "statedb", "kind": "merge-root-differs", "op": "replay", "input": r.input}, k,
+						fmt.Sprintf("[statedb] histories %q and %q end in the same content but have roots %x and %x", sHistString(k.OtherSOps), sHistString(k.SOps), o.root[:6], r.root[:6]))
+				}
+			}
 		default:
 			core.Fatal("unknown part %q in replay artefact", k.Part)
 		}
@@ -445,11 +466,12 @@ func main() {
 	cov["traces_validated_against_impl"] = trans
 	cov["evaluations"] = trans
 	cov["merges"] = merges
-	cov["distinct_nontrivial"] = c.classes.Len()
+	cov["distinct_nontrivial"] = states
+	cov["outcome_class_count"] = c.classes.Len()
 	cov["rule"] = "BFS over operation histories; one execution = fresh in-tree instance (+ fresh reference instance), replay of the representative history, one more op, oracle on the op and on the state reached; every (representative history, enabled op) pair is executed; a state is distinct by canonical key. " +
-		"Trie / SecureTrie: alphabet = update(k,v) for 3 value sizes (1/31/33 B), delete(k), [thorough: update(k,empty)], get(k), prove(k) for every key, hash, commit, commit+reopen in 3 variants (same node database; after Database.Commit to the disk db; brand-new Database on the disk db); 8 keys for the plain trie (shared nibble prefixes 0,1,2,3,4,63; strict nibble-prefix keys incl. the empty key; two 32-byte keys), 6 32-byte keys for the secure trie (keccak images sharing 0..3 nibbles); canonical key = content map + residency class (coarse: never committed|committed|reopened × clean|dirty; fine: never committed|committed|reopened×3 variants × clean|dirty|hashed). Light oracle on every execution: every Get = content, root = reference root = root of a fresh in-tree trie built by sorted insertion, merge oracle (equal content ⇒ equal root); full oracle on every execution that discovers a state: additionally Prove→VerifyProof (in-tree and reference verifier) for every key incl. absent ones, leaf iteration = content, root unchanged by reads; " + refRule + ". " +
+		"Trie / SecureTrie: alphabet = update(k,v) for 3 value sizes (1/31/33 B), delete(k), [thorough: update(k,empty)], get(k), prove(k) for every key, hash, commit, commit+reopen in 3 variants (same node database; after Database.Commit to the disk db; brand-new Database on the disk db); 8 keys for the plain trie (shared nibble prefixes 0,1,3,4,63; a three-way branch with hashed children; strict nibble-prefix keys incl. the empty key; two 32-byte keys differing in the last nibble), 6 32-byte keys for the secure trie (keccak images sharing 0,1,2,3 nibbles, three-way root branch); canonical key = content map + residency class (coarse: never committed|committed|reopened × clean|dirty; fine: never committed|committed|reopened×3 variants × clean|dirty|hashed). Light oracle on every execution: every Get = content, root = reference root = root of a fresh in-tree trie built by sorted insertion, merge oracle (equal content ⇒ equal root); full oracle on every execution that discovers a state: additionally Prove→VerifyProof (in-tree and reference verifier) for every key incl. absent ones, leaf iteration = content, root unchanged by reads; " + refRule + ". " +
 		"StateDB: 2 addresses, alphabet = AddBalance(0|5), SubBalance(5) if affordable, SetNonce, SetCode, SetState(2 slots × {0,7}), Suicide, CreateAccount per address, AddLog, AddRefund, Snapshot, RevertToSnapshot(every live snapshot), IntermediateRoot(true), Commit(true)+state.New in 2 variants (same state.Database; TrieDB().Commit + brand-new state.Database on the disk db), from two start states (empty; seeded = contract with committed storage + funded account, built through the API); canonical key = all getter-observable state of the current revision and of every live snapshot; the reference StateDB is driven through the same history on every execution. " +
-		"distinct_nontrivial = distinct (part, op, residency class or model effect) outcome classes observed."
+		"distinct_nontrivial = number of distinct canonical states reached (an execution that ends in an already known canonical state is a merge and is not counted); outcome_class_count = distinct (part, op, residency class or model effect) classes observed, outcome_classes = their histogram without the residency component."
 	cov["exhaustive"] = true
 	cov["bounds"] = bounds
 	cov["outcome_classes"] = c.coarse.Map()
